@@ -604,6 +604,13 @@ class PVLEncoder(object):
         """Returns a ``str`` formatted as a PVL Units Value based
         on the *value* object according to the rules of this encoder.
         """
+        for d in self.grammar.units_delimiters:
+            if d in value:
+                raise ValueError(
+                    f'The value, "{value}", has a units delimiter ({d}) in '
+                    "it, so it cannot be written as a Units Expression."
+                )
+
         return (
             self.grammar.units_delimiters[0]
             + value
